@@ -43,7 +43,7 @@
    differential correspondence run of harness/props/c10.py (implementation vs. extracted model
    on every generated sheet and position) and by the ground-truth oracle.
    What is proved about the scanner for ALL strings is in props/C16Css.v. *)
-From Coq Require Import ZArith List.
+From Coq Require Import ZArith List String.
 From Emmet Require Import lib.Base model.CssScan model.CssMatch model.CssTree model.CssSheet
      proofs.CssScanProofs proofs.CssTreeProofs proofs.CssRender proofs.CssRenderExamples.
 Import ListNotations.
@@ -127,6 +127,20 @@ Theorem C10_inward_text :
     balanced_inward (render sh) pos = Ok (inward_forest (render sh) (tree sh) pos).
 Proof. exact inward_text. Qed.
 Print Assumptions C10_inward_text.
+
+(* the excluded case (listed finding css:semicolon-or-brace-inside-parentheses-delimits), on the
+   model: in  a{b:f(;);}  the value is cut at the `;` inside the parentheses and match() at
+   position 7 does not return the declaration 2..9 with value 4..8; in  a{b:f({);}  the `{`
+   inside the parentheses opens a block *)
+Theorem C10_paren_delimiter_refuted :
+  scan (T "a{b:f(;);}") =
+    [mkEv Selector 0 1 1; mkEv PropertyName 2 3 3; mkEv PropertyValue 4 6 6; mkEv PropertyName 7 8 8;
+     mkEv BlockEnd 9 10 9] /\
+  css_match (T "a{b:f(;);}") 7 <> Some (mkMR true 2 9 4 8) /\
+  scan (T "a{b:f({);}") =
+    [mkEv Selector 0 1 1; mkEv Selector 2 6 6; mkEv PropertyName 7 8 8; mkEv BlockEnd 9 10 9].
+Proof. exact paren_delimiter_refuted. Qed.
+Print Assumptions C10_paren_delimiter_refuted.
 
 (* non-vacuity: one well-formed sheet per construct with the text it renders to, and a sheet
    using all of them whose callbacks are those emmet.css_matcher.scan reports for its text *)
